@@ -38,6 +38,9 @@ SELFTEST = [
          find=r'        case kStatusSent:\n          if \(mReferenceClock->isResponseReady\(\)\) \{\n(.*?)          \} else \{\n            unsigned long waitMillis = nowMillis - mRequestStartMillis;\n            if \(waitMillis >= mRequestTimeoutMillis\) \{\n              mRequestStatus = kStatusWaitForRetry;\n            \}\n          \}\n          break;',
          replace=r'        case kStatusSent: {\n          unsigned long waitMillis = nowMillis - mRequestStartMillis;\n          if (waitMillis >= mRequestTimeoutMillis) {\n            mRequestStatus = kStatusWaitForRetry;\n          } else if (mReferenceClock->isResponseReady()) {\n\1          }\n          break;\n        }',
          rule='S'),
+    dict(id='request-wait-kept-in-16-bits', file='src/ace_time/clock/SystemClockLoop.h',
+         find='            unsigned long waitMillis = nowMillis - mRequestStartMillis;', replace='            uint16_t waitMillis = nowMillis - mRequestStartMillis;', rule='S'),
+    # (seeded round 6: loop() called at gaps that are multiples of 65536 ms never gives the request up - the `sparse` configuration)
     dict(id='arm-deleted', file='src/ace_time/clock/SystemClockLoop.h', regex=True,
          find=r'        case kStatusOk: \{\n          unsigned long millisSinceLastSync = nowMillis - mLastSyncMillis;\n          if \(millisSinceLastSync >= mCurrentSyncPeriodSeconds \* 1000UL\) \{\n            mRequestStatus = kStatusReady;\n          \}\n          break;\n        \}\n',
          replace='', rule='S'),
